@@ -54,6 +54,7 @@ class Ht:
     k: int
     deps: tuple = ()
     fail: bool = False
+    label: str = ''      # free text (non-ASCII, lone surrogates, ...): ends up in the key's pre-image and in metadata.json
     run = _run
 
 
@@ -62,6 +63,7 @@ class HtX:
     k: int
     deps: tuple = ()
     fail: bool = False
+    label: str = ''      # free text (non-ASCII, lone surrogates, ...): ends up in the key's pre-image and in metadata.json
     run = _run
 
 
@@ -70,6 +72,7 @@ class Other:
     k: int
     deps: tuple = ()
     fail: bool = False
+    label: str = ''      # free text (non-ASCII, lone surrogates, ...): ends up in the key's pre-image and in metadata.json
     run = _run
 
 
@@ -92,5 +95,6 @@ def build(case):
     objs = []
     for k in range(len(case['ty'])):
         cls = TYPES[case['ty'][k]]
-        objs.append(cls(k=k, deps=tuple(objs[d] for d in case['deps'][k]), fail=bool(case['fl'][k])))
+        objs.append(cls(k=k, deps=tuple(objs[d] for d in case['deps'][k]), fail=bool(case['fl'][k]),
+                        label=(case.get('labels') or [''] * len(case['ty']))[k]))
     return objs
